@@ -14,7 +14,7 @@ import (
 func init() {
 	register(Property{ID: "C04", Level: "proof", Run: runC04,
 		Technique: "static analysis: dominance of route registrations by Use(middlewareAuth) on the single gin engine (AST + go/types), must-pass-through path conditions on the auth middlewares and the playback handlers (go/ssa), who-may-construct rule for gin engines",
-		Text:      "For api.API, metrics.Metrics and pprof.PPROF: the only gin engine of Initialize is the one handed to httpp.Server.Handler, Use(middlewareAuth) is an unconditional statement that precedes every route registration on the engine or on groups derived from it, no other engine exists in the package; each middlewareAuth builds an auth.Request with the constant action api/metrics/pprof, the client's credentials and IP, and on every path where Authenticate fails it reaches writeErrorNoLog(ctx, 401, ...) (which aborts the chain with AbortWithStatusJSON) before returning. Playback registers exactly onList/onGet, and in both every data-producing call (safeFindPathConf, FindSegments, parseAndConcatenate, seekAndMux, ctx.JSON) is dominated by IsValidPathName(path)==nil and doAuth(ctx, path) true for the same path expression; doAuth uses action playback on that path and returns true only when Authenticate returned nil, false only after a 401 abort. Preflight middlewares answer 204 and write no body. The IP of every auth request is ctx.ClientIP(); it is the connection's (or a configured proxy's) because in each Initialize the single gin engine receives SetTrustedProxies(recv.TrustedProxies.ToTrustedProxies()) on every path before it is handed to / started by the HTTP server (gin.New() alone trusts X-Forwarded-For of every peer), and no function of the module writes gin.Engine.TrustedPlatform / RemoteIPHeaders / ForwardedByClientIP. Obligations = route registrations x clauses.",
+		Text:      "For api.API, metrics.Metrics and pprof.PPROF: the only gin engine of Initialize is the one handed to httpp.Server.Handler, Use(middlewareAuth) is an unconditional statement that precedes every route registration on the engine or on groups derived from it, no other engine exists in the package; each middlewareAuth builds an auth.Request with the constant action api/metrics/pprof, the client's credentials and IP, and on every path where Authenticate fails it reaches writeErrorNoLog(ctx, 401, ...) (which aborts the chain with AbortWithStatusJSON) before returning. Playback registers exactly onList/onGet, and in both every data-producing call (safeFindPathConf, FindSegments, parseAndConcatenate, seekAndMux, ctx.JSON) is dominated by IsValidPathName(path)==nil and doAuth(ctx, path) true for the same path expression; doAuth uses action playback on that path and returns true only when Authenticate returned nil, false only after a 401 abort. Preflight middlewares answer 204 and write no body. The IP of every auth request is ctx.ClientIP(); it is the connection's (or a configured proxy's) because every gin engine constructed by the module outside the media servers (enumerated, prop_r4_c04.go; the media servers' engines are obligations of C03) whose handlers can reach ctx.ClientIP() receives SetTrustedProxies(recv.<field of type conf.IPNetworks>.ToTrustedProxies()) on every path before it is handed to / started by the HTTP server (gin.New() alone trusts X-Forwarded-For of every peer, also - in particular - when no proxy is configured), and no function of the module writes gin.Engine.TrustedPlatform / RemoteIPHeaders / ForwardedByClientIP. Round 4 (C04.no_bypass): in each middlewareAuth and in doAuth every path from the ENTRY to a return passes the 401 abort or the nil-error edge of the function's own Authenticate call - a remembered earlier decision (cache keyed on address / user / token), a header or an address that skips the call is a path that carries neither. Obligations = route registrations x clauses.",
 		Note:      "trusted: gin middleware ordering and Abort semantics (handlers after an aborted middleware do not run); the auth manager (C01/C02)"})
 	addMutants(
 		Mutant{"C04", "route-before-auth-middleware", "internal/api/api.go",
@@ -48,6 +48,12 @@ func init() {
 			"router.SetTrustedProxies(pp.TrustedProxies.ToTrustedProxies())", "router.SetTrustedProxies([]string{\"0.0.0.0/0\", \"::/0\"})", "C04.client_ip.trusted_proxies"},
 		Mutant{"C04", "playback-client-ip-from-platform-header", "internal/playback/server.go",
 			"	router.Use(s.middlewarePreflightRequests)\n", "	router.TrustedPlatform = gin.PlatformCloudflare\n	router.Use(s.middlewarePreflightRequests)\n", "C04.client_ip.engine_fields"},
+		// round 4: a path through the middleware that neither aborts nor asked the manager
+		Mutant{"C04", "pprof-loopback-skips-authentication", "internal/pprof/pprof.go",
+			"	_, err := pp.AuthManager.Authenticate(req)\n", "	if req.IP != nil && req.IP.IsLoopback() {\n		return\n	}\n\n	_, err := pp.AuthManager.Authenticate(req)\n", "C04.no_bypass"},
+		Mutant{"C04", "metrics-remembers-admitted-address-and-user", "internal/metrics/metrics.go",
+			"func (m *Metrics) middlewareAuth(ctx *gin.Context) {\n	req := &auth.Request{\n		Action:               conf.AuthActionMetrics,\n		Query:                ctx.Request.URL.RawQuery,\n		Credentials:          httpp.Credentials(ctx.Request),\n		IP:                   net.ParseIP(ctx.ClientIP()),\n		EnableAskCredentials: true,\n	}\n\n	_, err := m.AuthManager.Authenticate(req)\n	if err != nil {\n",
+			"var metricsAdmittedR4 sync.Map\n\nfunc (m *Metrics) middlewareAuth(ctx *gin.Context) {\n	req := &auth.Request{\n		Action:               conf.AuthActionMetrics,\n		Query:                ctx.Request.URL.RawQuery,\n		Credentials:          httpp.Credentials(ctx.Request),\n		IP:                   net.ParseIP(ctx.ClientIP()),\n		EnableAskCredentials: true,\n	}\n\n	key := req.IP.String() + \" \" + req.Credentials.User\n	if _, seen := metricsAdmittedR4.Load(key); seen {\n		return\n	}\n\n	_, err := m.AuthManager.Authenticate(req)\n	if err == nil {\n		metricsAdmittedR4.Store(key, true)\n	}\n	if err != nil {\n", "C04.no_bypass"},
 	)
 }
 
@@ -58,7 +64,8 @@ func runC04(c *Ctx) {
 	if p == nil {
 		return
 	}
-	c.Explain = "AST rule on Initialize of api/metrics/pprof/playback: one `gin.New()` per function bound to a local never re-assigned; `X.Use(recv.middlewareAuth)` is a top-level statement of the function body and textually precedes (hence dominates, being unconditional) every registration call (GET/POST/PATCH/DELETE/.../Group/pprof.Register) on the engine or its groups; Handler: router. SSA rules on middlewareAuth / writeErrorNoLog / middlewarePreflightRequests / playback doAuth, onList, onGet. SSA barrier rule on the four Initialize functions: the store of the engine into httpp.Server.Handler and the call of httpp.Server.Initialize are preceded on every path by SetTrustedProxies(engine, recv.TrustedProxies.ToTrustedProxies()); module-wide who-may-store on the gin.Engine fields that change what ClientIP() trusts. Not decided: gin internals (that ClientIP() honours forwarding headers only from the trusted proxy list)."
+	defer dumpObls(c)
+	c.Explain = "AST rule on Initialize of api/metrics/pprof/playback: one `gin.New()` per function bound to a local never re-assigned; `X.Use(recv.middlewareAuth)` is a top-level statement of the function body and textually precedes (hence dominates, being unconditional) every registration call (GET/POST/PATCH/DELETE/.../Group/pprof.Register) on the engine or its groups; Handler: router. SSA rules on middlewareAuth / writeErrorNoLog / middlewarePreflightRequests / playback doAuth, onList, onGet. SSA walk from the entry of the four authenticating functions (C04.no_bypass): a return is reached only through the 401 abort or over the edge `Authenticate(req)#1 == nil` of the call made for this request. SSA barrier rule on every function of the module (outside internal/servers/) that constructs a gin engine whose handlers can reach ctx.ClientIP() (call-graph walk from the installed handlers through static calls, closures, bound methods and interface calls; an escaping context counts as reaching): the store of the engine into a Handler field and the Initialize call of that server are preceded on every path by SetTrustedProxies(engine, recv.<IPNetworks field>.ToTrustedProxies()), and every SetTrustedProxies call on the engine passes such a list (or nil); module-wide who-may-store on the gin.Engine fields that change what ClientIP() trusts. Not decided: gin internals (that ClientIP() honours forwarding headers only from the trusted proxy list)."
 	c.Assume = []string{"gin runs middlewares registered with Use before the handlers of routes registered afterwards and skips the remaining handlers after Abort*", "auth.Manager decides correctly (C01/C02)"}
 
 	type comp struct {
@@ -89,9 +96,6 @@ func runC04(c *Ctx) {
 		}
 		c.Check("C04.single_engine", cm.pkg+": exactly one gin engine is constructed in the package", n == 1, p.Pos(fd.Pos()), "")
 
-		// the client IP of the auth request is not client-chosen
-		c.c04ClientIP(p, cm.pkg, cm.recv)
-
 		// preflight
 		if pf := c.fn(p, cm.pkg, cm.recv, "middlewarePreflightRequests"); pf != nil {
 			c.c04Preflight(p, pf)
@@ -106,16 +110,21 @@ func runC04(c *Ctx) {
 		}
 		c.c04AuthRequest(p, mw, cm.action, "")
 		c.c04FailAborts(p, mw, cm.pkg, cm.recv)
+		c.c04NoBypassR4(p, mw, cm.pkg, cm.recv)
 		c.c04Abort(p, we)
 	}
 	c.Floor("C04.route_after_auth", routes, 52)
-	c.c04EngineFields(p)
+	// the client IP of the auth request is not client-chosen: every gin engine of
+	// the module outside the media servers (those are C03's), prop_r4_c04.go
+	c.Floor("C04.client_ip.trusted_proxies", c.ginClientIPR4(p, "C04", func(pkg string) bool { return !isMediaServerPkgR4(pkg) }), 4)
+	c.ginEngineFieldsR4(p, "C04")
 
 	// ---- playback
 	da := c.fn(p, "internal/playback", "Server", "doAuth")
 	if da != nil {
 		c.c04AuthRequest(p, da, "playback", "$2")
 		c.c04FailAborts(p, da, "internal/playback", "Server")
+		c.c04NoBypassR4(p, da, "internal/playback", "Server")
 		for _, d := range retDescs(da, 0) {
 			c.Check("C04.playback.doauth", fnName(da)+": returns a boolean constant ("+d+")", d == "true" || d == "false", p.Pos(da.Pos()), "")
 		}
@@ -331,74 +340,6 @@ func (c *Ctx) c04Initialize(p *Prog, pk *packages.Package, fd *ast.FuncDecl, pkg
 }
 
 const ginEngine = "github.com/gin-gonic/gin.Engine"
-
-// c04ClientIP: the IP the permission is decided on is ctx.ClientIP()
-// (C04.identity). gin.New() trusts EVERY peer as a proxy (0.0.0.0/0, ::/0), so
-// ClientIP() is the client-supplied X-Forwarded-For / X-Real-Ip value unless the
-// engine was given the configured proxy list. Hence, on every path on which the
-// engine becomes the handler of the HTTP server, SetTrustedProxies(engine,
-// recv.TrustedProxies.ToTrustedProxies()) has been executed on that engine.
-func (c *Ctx) c04ClientIP(p *Prog, pkg, recv string) {
-	fn := c.fn(p, pkg, recv, "Initialize")
-	if fn == nil {
-		return
-	}
-	name := fnName(fn)
-	var engines []*ssa.Call
-	eachInstr(fn, func(i ssa.Instruction) {
-		if cc, ok := i.(*ssa.Call); ok && isCallTo(i, "github.com/gin-gonic/gin.New", "github.com/gin-gonic/gin.Default") {
-			engines = append(engines, cc)
-		}
-	})
-	if len(engines) != 1 {
-		c.Check("C04.client_ip.trusted_proxies", name+": exactly one gin engine is constructed", false, p.Pos(fn.Pos()), itoa(len(engines))+" engines")
-		return
-	}
-	eng := engines[0]
-	isEngine := func(v ssa.Value) bool { return deref(v) == ssa.Value(eng) }
-	const wantList = "(*conf.IPNetworks).ToTrustedProxies($0.TrustedProxies)"
-	served := func(i ssa.Instruction) bool {
-		if st, ok := i.(*ssa.Store); ok {
-			if fa, ok := st.Addr.(*ssa.FieldAddr); ok && fieldAddrIs(fa, "", "Handler") && isEngine(st.Val) {
-				return true
-			}
-		}
-		return isCallTo(i, "(*protocols/httpp.Server).Initialize")
-	}
-	configured := func(i ssa.Instruction) bool {
-		if !isCallTo(i, "(*"+ginEngine+").SetTrustedProxies") {
-			return false
-		}
-		a := callCommon(i).Args
-		return len(a) == 2 && isEngine(a[0]) && desc(a[1]) == wantList
-	}
-	c.MustPrecede(p, fn, "C04.client_ip.trusted_proxies", "the gin engine is handed to / started by the HTTP server",
-		"engine.SetTrustedProxies(recv.TrustedProxies.ToTrustedProxies())", // otherwise ClientIP(), the IP the permission is decided on, is chosen by the client
-		served, configured)
-	// every SetTrustedProxies call on the engine installs the configured list
-	eachInstr(fn, func(i ssa.Instruction) {
-		if !isCallTo(i, "(*"+ginEngine+").SetTrustedProxies") {
-			return
-		}
-		a := callCommon(i).Args
-		c.Check("C04.client_ip.trusted_proxies", name+": SetTrustedProxies installs the configured list recv.TrustedProxies", len(a) == 2 && desc(a[1]) == wantList, p.Pos(i.Pos()), "got "+desc(a[len(a)-1]))
-	})
-}
-
-// c04EngineFields: no function of the module switches a gin engine to a mode in
-// which ClientIP() is read from a request header of any peer.
-func (c *Ctx) c04EngineFields(p *Prog) {
-	n := 0
-	for _, f := range p.ModFuncs() {
-		for _, fld := range []string{"TrustedPlatform", "RemoteIPHeaders", "ForwardedByClientIP"} {
-			for _, st := range fieldStores(f, ginEngine, fld) {
-				n++
-				c.Check("C04.client_ip.engine_fields", "store to gin.Engine."+fld+" in "+fnName(f), false, p.Pos(st.Pos()), "changes the headers / peers ctx.ClientIP() trusts; the client IP must come from the connection or from a configured proxy only")
-			}
-		}
-	}
-	c.Check("C04.client_ip.engine_fields", "module never writes gin.Engine.TrustedPlatform / RemoteIPHeaders / ForwardedByClientIP", n == 0, "", itoa(n)+" store(s)")
-}
 
 func shortPkgOf(pkg string) string { return strings.TrimPrefix(pkg, "internal/") }
 
